@@ -1,5 +1,43 @@
 import Driver.Util
-/- Suite stub — replaced by the owner of this suite. -/
+import OpusModel.ResetState
+/-
+  Suite `misc` — line protocol of OpusModel.ResetState (property C12), driven by harness/c12_state.c:
+    misc encinit <Fs> <ch> <app> <arch> <silk_off> <celt_off>      → the 92 members after opus_encoder_init
+    misc encreset <92 members>                                      → the members after OPUS_RESET_STATE
+    misc encset <92 members> <request> <value>                      → BAD_ARG or the members after the request
+    misc decinit <Fs> <ch> <arch> <silk_off> <celt_off>            → the 29 decoder members after opus_decoder_init
+    misc decreset <29 members>                                      → after OPUS_RESET_STATE
+  Member order: Enc.toList / Dec.toList (declaration order of the C structs; blobs as 1 = bitwise fresh).
+-/
 namespace Driver.SuiteMisc
-def handle (_ : List String) : String := "bad-op"
+open Opus Opus.ResetState
+
+def ints (l : List String) : Option (List Int) := l.mapM (·.toInt?)
+
+def handle : List String → String
+  | ["encinit", fs, ch, app, arch, so, co] =>
+    match ints [fs, ch, app, arch, so, co] with
+    | some [fs, ch, app, arch, so, co] => "INIT " ++ intList (encInit fs ch app arch so co).toList
+    | _ => "bad-op"
+  | ["encreset", st] =>
+    match (parseIntList st).bind Enc.ofList with
+    | some s => "RESET " ++ intList (encReset s).toList
+    | none => "bad-op"
+  | ["encset", st, req, v] =>
+    match (parseIntList st).bind Enc.ofList, req.toInt?, v.toInt? with
+    | some s, some req, some v =>
+      match encSet s req v with
+      | some s' => "SET " ++ intList s'.toList
+      | none => "BAD_ARG"
+    | _, _, _ => "bad-op"
+  | ["decinit", fs, ch, arch, so, co] =>
+    match ints [fs, ch, arch, so, co] with
+    | some [fs, ch, arch, so, co] => "INIT " ++ intList (decInit fs ch arch so co).toList
+    | _ => "bad-op"
+  | ["decreset", st] =>
+    match (parseIntList st).bind Dec.ofList with
+    | some s => "RESET " ++ intList (decReset s).toList
+    | none => "bad-op"
+  | _ => "bad-op"
+
 end Driver.SuiteMisc
